@@ -112,6 +112,10 @@ impl Iterator for CountSrc<'_> {
         self.pulled.set(self.pulled.get() + 1);
         Some(b)
     }
+    // a valid but inexact hint (what a chunked / streaming source reports)
+    fn size_hint(&self) -> (usize, Option<usize>) {
+        ((self.data.len() - self.idx) / 2, None)
+    }
 }
 
 /// Laziness witness: the `*_from_iter` entry point on a counting source must return the slice entry
